@@ -15,7 +15,8 @@ func init() { registry["C09"] = genC09 }
 // a generated value: its source text and its encoding for the Lean driver
 type c09Val struct{ src, enc string }
 
-var c09Names = []string{"a", "b", "c", "k", "_p", "_q", "x1"}
+// (names that extend another name by `!` / `?` / a letter: their sorted order is that of the raw names)
+var c09Names = []string{"a", "b", "c", "k", "_p", "_q", "x1", "a!", "a?", "ab", "_p!"}
 
 func c09Scalar(c *Ctx) c09Val {
 	switch c.Rng.Intn(9) {
